@@ -46,7 +46,9 @@ type Config struct {
 	// senders -> one receiver that compares the two errors).
 	Phase string `json:"phase"`
 	// Lineage: "" (the plain types) or "generic-int", "generic-named",
-	// "generic-pointer" (instantiated generic types, renamed once).
+	// "generic-pointer" (instantiated generic types, renamed once), or
+	// "proto-native" (a leaf type that is a protobuf message and has no
+	// decoder; receivers are at the newest name only: types_proto.go).
 	Lineage string `json:"lineage,omitempty"`
 	// Kind: "leaf" (a T leaf), "wrapper" (a T wrapper over a stdlib
 	// errors.New leaf), "wrapped-leaf" (a T leaf under the library wrapper
@@ -170,6 +172,10 @@ func (c *Config) valid() bool {
 	for _, k := range l.kinds {
 		kindOK = kindOK || k == c.Kind
 	}
+	if l.protoNative && c.Phase != "process" && !(ok(c.Recv) && c.Recv.atNewest(l)) {
+		// the only faithful receivers of the proto-native lineage
+		return false
+	}
 	switch c.Phase {
 	case "process":
 		return ok(c.Proc)
@@ -250,20 +256,25 @@ type seen struct {
 	hasCode bool
 }
 
+// layerAt is the layer of e at the spot.
+func layerAt(s spot, e error) error {
+	switch s.where {
+	case "outermost":
+		return e
+	case "innermost":
+		return errors.UnwrapAll(e)
+	case "cause[1]":
+		if cs := errbase.UnwrapMulti(e); len(cs) > 1 {
+			return cs[1]
+		}
+	}
+	return nil
+}
+
 func observeSpots(kind string, e error) []seen {
 	var out []seen
 	for _, s := range spots(kind) {
-		var at error
-		switch s.where {
-		case "outermost":
-			at = e
-		case "innermost":
-			at = errors.UnwrapAll(e)
-		case "cause[1]":
-			if cs := errbase.UnwrapMulti(e); len(cs) > 1 {
-				at = cs[1]
-			}
-		}
+		at := layerAt(s, e)
 		o := seen{typ: fmt.Sprintf("%T", at)}
 		if f, ok := at.(fielder); ok {
 			_, o.code = f.fields()
@@ -373,6 +384,9 @@ type run struct {
 	evals  int64 // oracle evaluations
 	obs    map[string]interface{}
 	broken bool // a step panicked: the pipeline cannot continue
+	// prefix is put before the clause of every check: "second-transfer:"
+	// while the second transfer from the receiver is judged.
+	prefix string
 }
 
 func newRun(cfg *Config) *run {
@@ -380,7 +394,7 @@ func newRun(cfg *Config) *run {
 }
 
 func (x *run) fail(clause string, at Proc, f string, a ...interface{}) {
-	x.fails = append(x.fails, failure{clause, at, fmt.Sprintf(f, a...)})
+	x.fails = append(x.fails, failure{x.prefix + clause, at, fmt.Sprintf(f, a...)})
 }
 
 func (x *run) check(ok bool, clause string, at Proc, f string, a ...interface{}) {
@@ -418,10 +432,17 @@ type arrival struct {
 }
 
 // checkPayloadOnWire: with encoders on, every T layer crosses the wire with
-// the payload its encoder returned; without, with none.
+// the payload its encoder returned; without, with none. A proto-native leaf
+// is its own payload, with or without encoders for the other types.
 func (x *run) checkPayloadOnWire(p Proc, role string, pay []bool) {
-	want := x.cfg.Enc
 	for i, s := range spots(x.cfg.Kind) {
+		want := x.cfg.Enc
+		if x.lin.protoNative && s.role == "leaf" {
+			x.check(pay[i], "payload", p,
+				"%s %s puts the %s layer (the proto-native leaf, a proto.Message without encoder) on the wire with payload=%v; the error itself must be the payload",
+				role, p, s.where, pay[i])
+			continue
+		}
 		x.check(pay[i] == want, "payload", p,
 			"%s %s puts the %s layer (its %s type) on the wire with payload=%v; with encoders=%v the custom encoder registered under GetTypeKey of that type must have been used=%v",
 			role, p, s.where, s.role, pay[i], want, want)
@@ -485,11 +506,17 @@ func (x *run) checkDecoded(p Proc, role string, got []seen, gotText string, a ar
 				"the unknowing %s decodes the %s layer to a %s, want an opaque type", role, s.where, got[i].typ)
 			continue
 		}
+		if s.role == "leaf" && p.payloadOpaque(x.lin) {
+			x.check(got[i].typ == "*errbase.opaqueLeaf", "decode-type", p,
+				"%s %s, whose binary does not have the message type of the proto-native leaf linked in and has no decoder for it, decodes the %s layer to a %s, want *errbase.opaqueLeaf",
+				role, p, s.where, got[i].typ)
+			continue
+		}
 		want := p.cur(x.lin).typeOf(s.role).String()
 		x.check(got[i].typ == want, "decode-type", p,
 			"%s %s decodes the %s layer of the error (arriving under the family names %v, payloads %v) to a %s; it must decode it to its own type %s",
 			role, p, s.where, a.fams, a.pay, got[i].typ, want)
-		if x.cfg.Enc && got[i].typ == want {
+		if (x.cfg.Enc || (x.lin.protoNative && s.role == "leaf")) && got[i].typ == want {
 			x.check(got[i].hasCode && got[i].code == codeA, "payload", p,
 				"%s %s: the field carried by the payload of the %s layer is %q after the transfer, the sender had %q",
 				role, p, s.where, got[i].code, codeA)
@@ -506,6 +533,22 @@ func decodeWire(wire []byte) (error, error) {
 	return errors.DecodeError(context.Background(), enc), nil
 }
 
+// decodeAt is decodeWire at process p: if the payload of the proto-native
+// leaf is opaque at p, it arrives under a message name that is not linked in
+// (masked counts the payloads concerned).
+func (x *run) decodeAt(p Proc, wire []byte) (e error, masked int, err error) {
+	if !p.payloadOpaque(x.lin) {
+		e, err = decodeWire(wire)
+		return e, 0, err
+	}
+	var enc errors.EncodedError
+	if err = proto.Unmarshal(wire, &enc); err != nil {
+		return nil, 0, err
+	}
+	masked = maskPayload(&enc)
+	return errors.DecodeError(context.Background(), enc), masked, nil
+}
+
 // relay decodes and re-encodes under the view of the intermediary m.
 func (x *run) relay(m Proc, a arrival) arrival {
 	kind := x.cfg.Kind
@@ -513,14 +556,16 @@ func (x *run) relay(m Proc, a arrival) arrival {
 	var gotText string
 	out := arrival{text: a.text}
 	var uerr, merr error
+	masked, unmasked := 0, 0
 	if !x.view(m, "relay", func() {
 		var e error
-		if e, uerr = decodeWire(a.wire); uerr != nil {
+		if e, masked, uerr = x.decodeAt(m, a.wire); uerr != nil {
 			return
 		}
 		got = observeSpots(kind, e)
 		gotText = e.Error()
 		enc := errors.EncodeError(context.Background(), e)
+		unmasked = unmaskPayload(&enc)
 		ls := layersOf(&enc)
 		out.fams, out.pay = families(ls), payloads(kind, ls)
 		out.wire, merr = proto.Marshal(&enc)
@@ -534,6 +579,10 @@ func (x *run) relay(m Proc, a arrival) arrival {
 		return arrival{}
 	}
 	x.checkDecoded(m, "intermediary", got, gotText, a)
+	if m.payloadOpaque(x.lin) {
+		x.check(masked == 1 && unmasked == masked, "payload", m,
+			"intermediary %s, to which the payload of the proto-native leaf is opaque, received %d such payload(s) and forwards %d; it must forward the one it received", m, masked, unmasked)
+	}
 	// (d) re-encoding preserves the wire key
 	x.check(reflect.DeepEqual(out.fams, a.fams), "reencode", m,
 		"intermediary %s received the family names %v and forwards %v", m, a.fams, out.fams)
@@ -553,6 +602,29 @@ func (x *run) route(s Proc, mids []Proc, msg, tag string) arrival {
 	return a
 }
 
+// isObs is one evaluation of errors.Is at a receiver.
+type isObs struct {
+	name      string
+	want, got bool
+	pv        interface{}
+	clause    string
+}
+
+// keyObs is GetTypeKey of one T layer of a received error and of the same
+// layer of a locally built instance.
+type keyObs struct {
+	where, role string
+	got, local  string
+}
+
+// look is everything a receiver observes of one decoded error.
+type look struct {
+	got  []seen
+	text string
+	is   []isObs
+	keys []keyObs
+}
+
 func runTransfer(cfg *Config) *run {
 	x := newRun(cfg)
 	kind, r := cfg.Kind, *cfg.Recv
@@ -560,26 +632,18 @@ func runTransfer(cfg *Config) *run {
 	if x.broken {
 		return x
 	}
-	var got []seen
-	var gotText string
-	var uerr error
-	type isObs struct {
-		name      string
-		want, got bool
-		pv        interface{}
-		clause    string
-	}
-	var is []isObs
-	if !x.view(r, "decode", func() {
-		var e error
-		if e, uerr = decodeWire(a.wire); uerr != nil {
-			return
-		}
-		got = observeSpots(kind, e)
-		gotText = e.Error()
+	var uerr, merr2 error
+	var first, second look
+	// a2: what the receiver puts on the wire when it sends the error on
+	// (proto-native lineage: the second transfer)
+	a2 := arrival{text: a.text}
+	retransfer := x.lin.protoNative && r.knows()
+	inspect := func(e error) (lk look, err error) {
+		lk.got = observeSpots(kind, e)
+		lk.text = e.Error()
 		add := func(name, clause string, want bool, a, b error) {
 			got, pv := isG(a, b)
-			is = append(is, isObs{name, want, got, pv, clause})
+			lk.is = append(lk.is, isObs{name, want, got, pv, clause})
 		}
 		if r.knows() {
 			// (c) Is against fresh local instances of the receiver's own type
@@ -587,47 +651,106 @@ func runTransfer(cfg *Config) *run {
 			add("Is(received, local instance of "+r.Ver+" with the same message)", "is-local", true, e, buildT(kind, cur, msgA))
 			add("Is(received, local instance of "+r.Ver+" with another message)", "is-othermsg", false, e, buildT(kind, cur, msgB))
 			add("Is(received, local instance of the unrelated lineage U with the same message)", "is-unrelated", false, e, buildT(kind, chainU[1], msgA))
-		} else {
-			// (c) at a third party that knows nothing: compare with the
-			// error that the original code sent directly.
-			rf := cfg.ref()
-			d0, err0 := decodeWire(rf.wire)
-			d1, err1 := decodeWire(rf.wireOther)
-			du, err2 := decodeWire(rf.wireU)
-			if err0 != nil || err1 != nil || err2 != nil {
-				uerr = fmt.Errorf("reference wire: %v %v %v", err0, err1, err2)
-				return
+			if x.lin.protoNative {
+				// the other direction: the local error (built like the
+				// sender's, library wrapper included) against the received one
+				local := buildFull(kind, cur, msgA)
+				add("Is(local instance of "+r.Ver+" with the same message, received)", "is-local", true, local, e)
+				add("Is(local instance of "+r.Ver+" with another message, received)", "is-othermsg", false, buildFull(kind, cur, msgB), e)
+				for _, s := range spots(kind) {
+					k := keyObs{where: s.where, role: s.role}
+					if at := layerAt(s, e); at != nil {
+						k.got = string(errors.GetTypeKey(at))
+					}
+					if at := layerAt(s, local); at != nil {
+						k.local = string(errors.GetTypeKey(at))
+					}
+					lk.keys = append(lk.keys, k)
+				}
 			}
-			add("Is(received, error sent directly by V0)", "is-routes", true, e, d0)
-			add("Is(error sent directly by V0, received)", "is-routes", true, d0, e)
-			add("Is(received, error with another message sent by V0)", "is-othermsg", false, e, d1)
-			add("Is(received, error of the unrelated lineage U)", "is-unrelated", false, e, du)
-			add("Is(error of the unrelated lineage U, received)", "is-unrelated", false, du, e)
+			return lk, nil
 		}
+		// (c) at a third party that knows nothing: compare with the
+		// error that the original code sent directly.
+		rf := cfg.ref()
+		d0, err0 := decodeWire(rf.wire)
+		d1, err1 := decodeWire(rf.wireOther)
+		du, err2 := decodeWire(rf.wireU)
+		if err0 != nil || err1 != nil || err2 != nil {
+			return lk, fmt.Errorf("reference wire: %v %v %v", err0, err1, err2)
+		}
+		add("Is(received, error sent directly by V0)", "is-routes", true, e, d0)
+		add("Is(error sent directly by V0, received)", "is-routes", true, d0, e)
+		add("Is(received, error with another message sent by V0)", "is-othermsg", false, e, d1)
+		add("Is(received, error of the unrelated lineage U)", "is-unrelated", false, e, du)
+		add("Is(error of the unrelated lineage U, received)", "is-unrelated", false, du, e)
+		return lk, nil
+	}
+	if !x.view(r, "decode", func() {
+		var e error
+		if e, _, uerr = x.decodeAt(r, a.wire); uerr != nil {
+			return
+		}
+		if first, uerr = inspect(e); uerr != nil || !retransfer {
+			return
+		}
+		// the receiver sends the error it received to a process like itself
+		enc := errors.EncodeError(context.Background(), e)
+		ls := layersOf(&enc)
+		a2.fams, a2.pay = families(ls), payloads(kind, ls)
+		if a2.wire, merr2 = proto.Marshal(&enc); merr2 != nil {
+			return
+		}
+		var e2 error
+		if e2, _, uerr = x.decodeAt(r, a2.wire); uerr != nil {
+			return
+		}
+		second, uerr = inspect(e2)
 	}) {
 		return x
 	}
 	x.steps++
-	if uerr != nil {
+	if retransfer {
+		x.steps += 2
+	}
+	if uerr != nil || merr2 != nil {
 		x.broken = true
-		x.fail("marshal", r, "proto.Unmarshal at %s fails: %v", r, uerr)
+		x.fail("marshal", r, "protobuf round trip at %s fails: %v %v", r, uerr, merr2)
 		return x
 	}
-	var types []string
-	for _, g := range got {
-		types = append(types, g.typ)
-	}
-	x.obs["received_types_of_the_T_layers"] = types
-	x.checkDecoded(r, "receiver", got, gotText, a)
-	for _, o := range is {
-		x.obs[o.name] = o.got
-		if o.pv != nil {
-			x.evals++
-			x.fail("panic-is", r, "%s panics at %s: %v", o.name, r, o.pv)
-			continue
+	judge := func(lk look, a arrival, tag string) {
+		var types []string
+		for _, g := range lk.got {
+			types = append(types, g.typ)
 		}
-		x.check(o.got == o.want, o.clause, r, "at receiver %s: %s = %v, want %v (received %v under the family names %v)",
-			r, o.name, o.got, o.want, types, a.fams)
+		x.obs["received_types_of_the_T_layers"+tag] = types
+		x.checkDecoded(r, "receiver", lk.got, lk.text, a)
+		for _, o := range lk.is {
+			x.obs[o.name+tag] = o.got
+			if o.pv != nil {
+				x.evals++
+				x.fail("panic-is", r, "%s panics at %s: %v", o.name, r, o.pv)
+				continue
+			}
+			x.check(o.got == o.want, o.clause, r, "at receiver %s: %s = %v, want %v (received %v under the family names %v)",
+				r, o.name, o.got, o.want, types, a.fams)
+		}
+		for _, k := range lk.keys {
+			x.check(k.got == k.local && k.local != "", "typekey-received", r,
+				"at receiver %s: GetTypeKey of the %s layer (%s type) of the received error is %q, of the same layer of a locally built instance %q",
+				r, k.where, k.role, short(k.got), short(k.local))
+		}
+	}
+	judge(first, a, "")
+	if retransfer {
+		x.prefix = "second-transfer:"
+		x.obs["wire_families_second_transfer"] = a2.fams
+		x.check(reflect.DeepEqual(a2.fams, cfg.ref().fams), "wirekey", r,
+			"receiver %s sends the error it received (under the family names %v) on under the family names %v; the original names are %v",
+			r, a.fams, a2.fams, cfg.ref().fams)
+		x.checkPayloadOnWire(r, "receiver (sending on)", a2.pay)
+		judge(second, a2, " (second transfer)")
+		x.prefix = ""
 	}
 	return x
 }
@@ -832,7 +955,10 @@ func setupRefs(r *core.Result) bool {
 }
 
 func lineageSuffix(name string) string {
-	if name != "" {
+	switch {
+	case name == protoNativeName:
+		return "|proto-native"
+	case name != "":
 		return "|generic"
 	}
 	return ""
@@ -848,6 +974,9 @@ func runC17(c *core.Ctx, r *core.Result) {
 		"a process = pristine registries + that process's registrations, installed around each encode/decode step with the errbase snapshot hooks (build overlay)",
 		"a V_k binary declares one RegisterTypeMigration per rename step (or, 'direct', the single call name0 -> name_k), with the package path and reflect.TypeOf(err).String() of the previous type, as documented; migrations before decoders, as documented",
 		"with encoders on, every type of the lineage crosses the wire in a payload (custom encoder registered under GetTypeKey) and its decoder fails without that payload",
+		"proto-native leaf lineage (PNativeV0 -> PNativeV1 -> PNativeV2, PNativeAlt: one protobuf message name, no leaf encoder/decoder, the error is its own payload): the gogo protobuf type registry is global to this OS process and cannot be snapshotted (proto.RegisterType ignores a second registration of a message name; nothing unregisters), so every simulated process that unmarshals the payload gets the ONE registered Go type, the newest name PNativeV2. Explored: receivers at V2 only (both registration orders, single-call declaration, every subset of observation points) from every sender version (V0, V1, V2, Alt; encoding needs only XXX_MessageName), directly and through one or two intermediaries. NOT explorable: receivers (final or intermediary) at V0, V1 or Alt that unmarshal the payload into their own *PNativeV0 / *PNativeV1 / *PNativeAlt (new -> old, B -> A): that needs a per-process protobuf registry",
+		"proto-native leaf lineage: at every intermediary other than V2 (unknowing, V0, V1, Alt) the payload is opaque, i.e. that binary does not have the message type in its protobuf registry (never knew it, or has the hand-written type with XXX_MessageName but did not proto.RegisterType it: it can send but not unmarshal). Simulated by rewriting the payload's type URL to a message name that is registered nowhere before that process decodes and back after it re-encodes; sound because the library hands the Any only to types.UnmarshalAny / forwards it untouched. The model there: an opaqueLeaf that is forwarded with the same family name and the same payload",
+		"proto-native leaf lineage, extra receiver clauses: Is in both directions against a locally built instance, GetTypeKey(received layer) == GetTypeKey(local layer), and a second transfer from the receiver to a process like itself (clauses prefixed second-transfer:) preserves wire family names, decoded type, fields, Is and type key",
 		"each configuration reports its first diverging clause, attributed to the process where model and observation diverge; later failing clauses of the same configuration are listed in the message and counted under counters consequent:<clause>",
 	}
 	if !setupRefs(r) {
@@ -974,6 +1103,30 @@ func enumerate(c *core.Ctx, r *core.Result, l *lineage, samples *sampler, stop f
 	head := fmt.Sprintf("lineage %s: rename chains of length n<=%d (all n! registration orders + single-call declaration%s = %d knowing process specs, + an unknowing process; every subset of the observation points of a start-up history = %d more specs); kinds %v; encoders{off,on: payload-carrying} x unrelated-migration position %v.",
 		name, maxN, map[bool]string{true: " + a differently renamed version", false: ""}[l.alt != nil], len(procs), len(observing), l.kinds, uposs)
 	switch {
+	case l.protoNative:
+		// receivers: the processes at the newest name only (types_proto.go)
+		var recvNew, recvNewAll []Proc
+		for _, p := range procs {
+			if p.atNewest(l) {
+				recvNew = append(recvNew, p)
+			}
+		}
+		recvNewAll = append(recvNewAll, recvNew...)
+		for _, p := range observing {
+			if p.atNewest(l) {
+				recvNewAll = append(recvNewAll, p)
+			}
+		}
+		routeRecvs, routeNote := recvNew, "every plain receiver at V2"
+		if c.Thorough() {
+			routeRecvs, routeNote = recvNewAll, "every receiver at V2 (plain or observing)"
+		}
+		transfers(sendAll, join(none, singles), recvNewAll, bools, uposs)
+		transfers(procs, pairs, recvNew, bools, uposs)
+		transfers(procs, observingMids, recvNew, bools, uposs)
+		routes(routeRecvs, join(none, singles), []opts{{Enc: false, UPos: 0}, {Enc: true, UPos: 0}, {Enc: false, UPos: maxN}, {Enc: true, UPos: 1}})
+		return head + fmt.Sprintf(" The leaf is a proto.Message without decoder; only the newest name is in the (OS-process-global) protobuf registry, so RECEIVERS ARE AT V2 ONLY (%d plain specs, %d with observing ones) and the payload is opaque at every other intermediary (unknowing, V0, V1, Alt). process: every spec. transfer: every sender (plain or observing, %d: V0, V1, V2, Alt) x {no intermediary, each of %d plain} x every receiver at V2; every plain sender x every pair of plain intermediaries (%d) x plain receiver at V2; plain sender x observing intermediary x plain receiver at V2; each followed by a second transfer from the receiver. routes: every unordered pair of plain senders, second route via {none, each of %d}, x %s, 4 option combinations. Not explored: receivers at V0 / V1 / Alt that unmarshal the payload",
+			len(recvNew), len(recvNewAll), len(sendAll), len(others), len(pairs), len(others), routeNote)
 	case l.name != "" || c.Thorough():
 		// small lineages, and the thorough tier: the full product
 		transfers(sendAll, join(none, singles), recvAll, bools, uposs)
@@ -1097,7 +1250,13 @@ func execute(r *core.Result, cfg *Config, samples *sampler) {
 	if cfg.observes() {
 		r.Count("configurations-with-observation-points", 1)
 	}
-	if cfg.Lineage != "" {
+	switch {
+	case cfg.Lineage == protoNativeName:
+		r.Count("configurations-of-the-proto-native-lineage", 1)
+		if cfg.Phase != "process" {
+			r.Count("proto-native:"+protoNativePath(cfg), 1)
+		}
+	case cfg.Lineage != "":
 		r.Count("configurations-of-generic-lineages", 1)
 	}
 	if samples != nil {
@@ -1112,8 +1271,27 @@ type sampler struct {
 	got map[string]interface{}
 }
 
+// protoNativePath classifies a transfer configuration of the proto-native
+// lineage by its path: sender version, then per intermediary "opaque"
+// (unknowing, V0, V1, Alt: the payload is opaque there) or V2, then the
+// receiver version.
+func protoNativePath(c *Config) string {
+	if c.Phase != "transfer" {
+		return c.Phase
+	}
+	path := c.Sender.Ver
+	for _, m := range c.Mids {
+		if m.payloadOpaque(c.lin()) {
+			path += "->opaque"
+		} else {
+			path += "->" + m.Ver
+		}
+	}
+	return "transfer " + path + "->" + c.Recv.Ver
+}
+
 func scenarioOf(c *Config) string {
-	if c.Lineage != "" || c.Kind != "leaf" || c.Enc || c.UPos != 0 {
+	if c.Kind != "leaf" || c.Enc || c.UPos != 0 {
 		return ""
 	}
 	if c.observes() {
@@ -1121,6 +1299,21 @@ func scenarioOf(c *Config) string {
 	}
 	is := func(p *Proc, ver string) bool { return p != nil && p.Ver == ver && !p.Direct }
 	mid := func(ms []Proc, ver string) bool { return len(ms) == 1 && ms[0].Ver == ver }
+	if c.Lineage == protoNativeName {
+		chrono := func(p *Proc) bool { return is(p, "V2") && orderString(p.Order) == "0,1" }
+		if c.Phase == "transfer" && chrono(c.Recv) {
+			switch {
+			case is(c.Sender, "V0") && len(c.Mids) == 0:
+				return "proto-native-original-to-newest"
+			case chrono(c.Sender) && mid(c.Mids, "V0"):
+				return "proto-native-newest-through-old-opaque-to-newest"
+			}
+		}
+		return ""
+	}
+	if c.Lineage != "" {
+		return ""
+	}
 	switch c.Phase {
 	case "transfer":
 		switch {
@@ -1161,13 +1354,15 @@ func (s *sampler) offer(r *core.Result, c *Config, x *run, verdict string) {
 }
 
 func (s *sampler) flush(r *core.Result) {
-	// scenario1-backward is left to its counter: six samples are kept.
-	for _, n := range []string{"scenario1-forward", "scenario2-simultaneous", "scenario3-through-old", "scenario4-through-unknowing", "scenario5-third-party", "chain2-chronological-to-original"} {
+	// scenario1-backward, chain2-chronological-to-original and
+	// proto-native-original-to-newest are left to their counters: six
+	// samples are kept.
+	for _, n := range []string{"scenario1-forward", "scenario2-simultaneous", "scenario3-through-old", "scenario4-through-unknowing", "scenario5-third-party", "proto-native-newest-through-old-opaque-to-newest"} {
 		if v, ok := s.got[n]; ok {
 			r.Sample(v)
 		}
 	}
-	for _, n := range []string{"scenario1-forward", "scenario1-backward", "scenario2-simultaneous", "scenario3-through-old", "scenario4-through-unknowing", "scenario5-third-party"} {
+	for _, n := range []string{"scenario1-forward", "scenario1-backward", "scenario2-simultaneous", "scenario3-through-old", "scenario4-through-unknowing", "scenario5-third-party", "proto-native-original-to-newest", "proto-native-newest-through-old-opaque-to-newest"} {
 		if _, ok := s.got[n]; !ok {
 			r.Uncovered = append(r.Uncovered, "documented "+n+" was not a point of the explored space")
 		}
